@@ -38,7 +38,7 @@ fn encode_run(ch: &mut Chooser, label: &'static str, n: usize) -> Vec<u32> {
     parts
 }
 
-fn encode_row(ch: &mut Chooser, cells: &[OVal]) -> Vec<(OCell, u32)> {
+fn encode_row(ch: &mut Chooser, cells: &[OVal], annotate: bool) -> Vec<(OCell, u32)> {
     let mut out = vec![];
     let mut n = cells.len();
     while n > 0 && cells[n - 1] == OVal::Empty { n -= 1; }
@@ -49,7 +49,7 @@ fn encode_row(ch: &mut Chooser, cells: &[OVal]) -> Vec<(OCell, u32)> {
         while j < n && cells[j] == cells[i] { j += 1; }
         for p in encode_run(ch, "cell-run-cut", j - i) {
             let covered = cells[i] == OVal::Empty && ch.flag("covered-cell");
-            out.push((OCell { val: cells[i].clone(), formula: None, covered }, p));
+            out.push((OCell { val: cells[i].clone(), formula: None, covered, annotation: annotate && !matches!(cells[i], OVal::Empty) }, p));
         }
         i = j;
     }
@@ -69,6 +69,8 @@ fn build(ch: &mut Chooser, g: &G, ka: usize, kb: usize) -> (OBook, Grid, serde_j
     let exp = |c: u8| match c { 1 => ks[ka].2.clone(), _ => ks[kb].2.clone() };
     let mut grid = Grid::new();
     for (r, row) in g.iter().enumerate() { for (c, v) in row.iter().enumerate() { if *v != 0 { grid.insert((r as u32, c as u32), exp(*v)); } } }
+    // every non-empty cell carries a comment (office:annotation with its own paragraphs), which is not part of the value
+    let annotate = ch.flag("cells-have-comments");
     // rows: maximal runs of equal logical rows, every composition
     let mut nrows = g.len();
     while nrows > 0 && g[nrows - 1].iter().all(|c| *c == 0) { nrows -= 1; }
@@ -80,7 +82,7 @@ fn build(ch: &mut Chooser, g: &G, ka: usize, kb: usize) -> (OBook, Grid, serde_j
         while j < nrows && g[j] == g[i] { j += 1; }
         for p in encode_run(ch, "row-run-cut", j - i) {
             let cells: Vec<OVal> = g[i].iter().map(|c| val(*c)).collect();
-            rows.push(ORow { cells: encode_row(ch, &cells), repeat: p });
+            rows.push(ORow { cells: encode_row(ch, &cells, annotate), repeat: p });
         }
         i = j;
     }
